@@ -50,6 +50,7 @@ func (g *gate) step() { <-g.arrive; g.grant <- struct{}{}; <-g.done }
 // moment the call is released
 type gatedEnd struct {
 	rg, wg *gate
+	eofl   bool // the last chunk is returned TOGETHER with io.EOF (legal io.Reader behaviour)
 	mu     sync.Mutex
 	src    [][]byte
 	sink   bytes.Buffer
@@ -67,6 +68,9 @@ func (e *gatedEnd) Read(p []byte) (int, error) {
 		e.src[0] = e.src[0][n:]
 	} else {
 		e.src = e.src[1:]
+	}
+	if e.eofl && len(e.src) == 0 {
+		return n, io.EOF
 	}
 	return n, nil
 }
@@ -86,9 +90,17 @@ func (e *gatedEnd) snapshot() []byte {
 	return append([]byte(nil), e.sink.Bytes()...)
 }
 
-type gatedRemote struct{ gatedEnd }
+type gatedRemote struct {
+	gatedEnd
+	cwOnce sync.Once
+	cw     chan struct{} // closed at the first CloseWrite: the upload loop has ended
+}
 
-func (r *gatedRemote) CloseWrite() error { r.note("closewrite"); return nil }
+func (r *gatedRemote) CloseWrite() error {
+	r.note("closewrite")
+	r.cwOnce.Do(func() { close(r.cw) })
+	return nil
+}
 func (r *gatedRemote) Close() error      { r.note("close"); return nil }
 
 type gatedLocal struct{ gatedEnd }
@@ -103,11 +115,13 @@ func unhxAll(hs []string) [][]byte {
 	return out
 }
 
+var gatedHangs int32
+
 func runGated(c *caseIn, out *caseOut) {
 	up, down := unhxAll(c.Up), unhxAll(c.Down)
 	gU, gD := newGate(), newGate() // upload: local.Read + remote.Write ; download: remote.Read + local.Write
-	local := &gatedLocal{gatedEnd{rg: gU, wg: gD, src: up}}
-	remote := &gatedRemote{gatedEnd{rg: gD, wg: gU, src: down}}
+	local := &gatedLocal{gatedEnd{rg: gU, wg: gD, src: up, eofl: c.UpEofl}}
+	remote := &gatedRemote{gatedEnd: gatedEnd{rg: gD, wg: gU, src: down, eofl: c.DownEofl}, cw: make(chan struct{})}
 	cfg := &session.BidirectionalForwardConfig{TunnelID: "gated", LogPrefix: "gated", LocalConn: local, RemoteConn: remote}
 	var sent, recv atomic.Int64
 	if c.Counters {
@@ -125,6 +139,9 @@ func runGated(c *caseIn, out *caseOut) {
 			}
 		}
 		calls[d] = 2*len(chunks) + 1
+		if len(chunks) > 0 && ((d == 0 && c.UpEofl) || (d == 1 && c.DownEofl)) {
+			calls[d] = 2 * len(chunks) // no separate (0, io.EOF) Read
+		}
 	}
 	made := [2]int{0, 0}
 	gates := [2]*gate{gU, gD}
@@ -134,12 +151,39 @@ func runGated(c *caseIn, out *caseOut) {
 			return // that copy loop has ended: the token is a no-op (as in the model)
 		}
 		ok := make(chan struct{})
-		go func() { gates[d].step(); close(ok) }()
+		arrived := make(chan struct{})
+		go func() {
+			<-gates[d].arrive
+			close(arrived)
+			gates[d].grant <- struct{}{}
+			<-gates[d].done
+			close(ok)
+		}()
+		wait := 5 * time.Second
+		if atomic.LoadInt32(&gatedHangs) >= 2 {
+			wait = 300 * time.Millisecond // a tree that hangs every replay must not cost 5 s per case
+		}
+		var early <-chan struct{}
+		if d == 0 {
+			early = remote.cw
+		}
 		select {
-		case <-ok:
+		case <-arrived:
+			<-ok
 			made[d]++
-		case <-time.After(10 * time.Second):
+		case <-early:
+			// the upload loop ended (it half-closed the remote) before making all the calls its source warrants:
+			// stop scheduling it; the content comparison below reports what was lost
+			select {
+			case <-arrived: // (a call that raced with the close signal cannot exist: CloseWrite follows the loop)
+				<-ok
+				made[d]++
+			default:
+				made[d] = calls[d]
+			}
+		case <-time.After(wait):
 			hung = true
+			atomic.AddInt32(&gatedHangs, 1)
 		}
 	}
 	for _, t := range c.Sched {
@@ -159,8 +203,9 @@ func runGated(c *caseIn, out *caseOut) {
 	if !hung {
 		select {
 		case <-fdone:
-		case <-time.After(10 * time.Second):
+		case <-time.After(5 * time.Second):
 			hung = true
+			atomic.AddInt32(&gatedHangs, 1)
 		}
 	}
 	if hung {
@@ -182,6 +227,7 @@ func runGated(c *caseIn, out *caseOut) {
 	case !bytes.HasPrefix(wantUp, midUp) || !bytes.HasPrefix(wantDown, midDown):
 		out.fail("forwarder-duplex-content", "gated schedule %v: bytes delivered after the scheduled prefix are not a prefix of the source", headInts(c.Sched))
 	}
+	out.Sent, out.Recv = sent.Load(), recv.Load()
 	if c.Counters && (sent.Load() != int64(len(wantUp)) || recv.Load() != int64(len(wantDown))) {
 		out.fail("forwarder-counters", "traffic counters: sent=%d received=%d, want %d / %d", sent.Load(), recv.Load(), len(wantUp), len(wantDown))
 	}
@@ -382,4 +428,107 @@ func runDuplex(c *caseIn, out *caseOut) {
 		}
 	}
 	out.WireLen = c.UpLen + c.DownLen
+}
+
+// ---------------------------------------------------------------------------------------------
+// chunk-oracle local connection + real FrameStream + traffic counters
+// ---------------------------------------------------------------------------------------------
+
+// oracleLocal is a non-TCP LocalConn whose Read side is the chunk oracle of coq/Base/Chunks.v over a byte string
+// (cuts), optionally handing out the LAST chunk together with io.EOF; its Write side collects the download.
+type oracleLocal struct {
+	chunkReader
+	eofl bool
+	mu   sync.Mutex
+	down bytes.Buffer
+}
+
+func (l *oracleLocal) Read(p []byte) (int, error) {
+	n, err := l.chunkReader.Read(p)
+	if err == nil && l.eofl && n > 0 && len(l.chunkReader.data) == 0 {
+		return n, io.EOF
+	}
+	return n, err
+}
+func (l *oracleLocal) Write(p []byte) (int, error) {
+	l.mu.Lock()
+	defer l.mu.Unlock()
+	return l.down.Write(p)
+}
+
+// runFwdCut: the real runBidirectionalForward between an oracle-chunked local source and a real FrameStream over
+// loopback TCP; the peer (a real FrameStream) reads to end-of-stream, answers with the given Write calls and closes.
+// Observables: bytes the peer received, bytes the local side received, BytesSentCounter, BytesReceivedCounter.
+func runFwdCut(c *caseIn, out *caseOut) {
+	data := unhx(c.Wire)
+	resp := unhxAll(c.Down)
+	idStr := "fwdcut-tunnel"
+	id, err := crossnode.TunnelIDFromString(idStr)
+	hmust(err)
+	xa, xb := tcpPair()
+	local := &oracleLocal{chunkReader: chunkReader{data: data, cuts: append([]int(nil), c.Cuts...)}, eofl: c.UpEofl}
+	fsA := crossnode.NewFrameStream(crossnode.NewConn(context.Background(), "B", xa, nil), id)
+	cfg := &session.BidirectionalForwardConfig{TunnelID: idStr, LogPrefix: "fwdcut", LocalConn: local, RemoteConn: fsA}
+	var sent, recv atomic.Int64
+	if c.Counters {
+		cfg.BytesSentCounter, cfg.BytesReceivedCounter = &sent, &recv
+	}
+	type res struct {
+		b   []byte
+		err error
+	}
+	pdone := make(chan res, 1)
+	go func() {
+		peer := crossnode.NewFrameStream(crossnode.NewConn(context.Background(), "A", xb, nil), id)
+		got, err := io.ReadAll(peer)
+		for _, w := range resp {
+			if err == nil {
+				_, err = peer.Write(w)
+			}
+		}
+		if err == nil {
+			err = peer.Close()
+		}
+		pdone <- res{got, err}
+	}()
+	fdone := make(chan struct{})
+	go func() { session.VerifRunBidirectionalForward(cfg); close(fdone) }()
+	var pr res
+	hung := false
+	select {
+	case pr = <-pdone:
+	case <-time.After(15 * time.Second):
+		hung = true
+	}
+	if !hung {
+		select {
+		case <-fdone:
+		case <-time.After(15 * time.Second):
+			hung = true
+		}
+	}
+	xa.Close()
+	xb.Close()
+	if hung {
+		out.fail("forwarder-hang", "oracle-chunked local source (%d bytes, eof with last chunk=%v): peer or forwarder did not finish", len(data), c.UpEofl)
+		return
+	}
+	local.mu.Lock()
+	gotDown := append([]byte(nil), local.down.Bytes()...)
+	local.mu.Unlock()
+	wantDown := bytes.Join(resp, nil)
+	out.UpFinal, out.DownFinal = hx(pr.b), hx(gotDown)
+	out.Sent, out.Recv = sent.Load(), recv.Load()
+	out.WireLen = len(data) + len(wantDown)
+	if pr.err != nil || !bytes.Equal(pr.b, data) {
+		out.fail("forwarder-truncation", "local source of %d bytes in %d cuts, last chunk together with io.EOF=%v, counters=%v: the peer FrameStream received %d bytes before end-of-stream (err=%v, first difference at byte %d)",
+			len(data), len(c.Cuts), c.UpEofl, c.Counters, len(pr.b), pr.err, firstDiff(pr.b, data))
+	}
+	if !bytes.Equal(gotDown, wantDown) {
+		out.fail("forwarder-truncation", "response of %d bytes arrived at the local side as %d bytes (first difference at byte %d)", len(wantDown), len(gotDown), firstDiff(gotDown, wantDown))
+	}
+	if c.Counters && (sent.Load() != int64(len(data)) || recv.Load() != int64(len(wantDown))) {
+		out.fail("forwarder-counters", "traffic counters: sent=%d received=%d, but %d bytes were read from the local side and %d written to it (eof with last chunk=%v)",
+			sent.Load(), recv.Load(), len(data), len(wantDown), c.UpEofl)
+	}
 }
